@@ -479,6 +479,10 @@ structure RawRules where
   prin : List Str := []
   deriving Repr
 
+/-- `X509NameOptions.HasNames` / `SSHNameOptions.HasNames`: a section without any rule has no engine -/
+def RawRules.hasNames (r : RawRules) : Bool :=
+  !(r.cn.isEmpty && r.dns.isEmpty && r.ip.isEmpty && r.email.isEmpty && r.uri.isEmpty && r.prin.isEmpty)
+
 inductive Build (α : Type) where
   | ok (a : α) | bad | crash
   deriving Repr
@@ -547,5 +551,16 @@ def sshAllowed (e : Engine) (host : Bool) (n : Names) (dnsAsPrincipals : List St
     if !n.uris.isEmpty then .splitErr
     else if !n.ips.isEmpty then .splitErr
     else .verdict (validateNames e { dns := [], ips := n.ips, emails := n.emails, uris := [], principals := dnsAsPrincipals })
+
+/-- The two SSH sections of a policy (`authority/policy.Engine.IsSSHCertificateAllowed`, and the provisioner-level
+    `sshNamePolicyValidator.Valid`): `own` is the engine of the section for the certificate's type, `other` the one for
+    the other type; an engine exists for a section iff the section has names. No section at all allows everything; a
+    policy with only the other type's section refuses every certificate of this type; otherwise the own section
+    decides. -/
+def sshDispatch (own other : Option Engine) (host : Bool) (n : Names) (dnsAsPrincipals : List Str) : SshOut :=
+  match own, other with
+  | none, none => .verdict .allow
+  | none, some _ => .verdict (.deny .notAllowed .principal)
+  | some e, _ => sshAllowed e host n dnsAsPrincipals
 
 end Verif.Policy
